@@ -125,7 +125,17 @@ def guard_by_worlds(prog, f, is_site):
     looked = [False]
     # the evaluator hands hooks the raw callee record; map it back to the Call object (closures are evaluated too)
     by_callee = {}
-    for g in [f] + [prog.fns[p_] for p_ in prog.fns if prog.fns[p_].root == f.path and prog.fns[p_] is not f]:
+    # mdk-core helpers through which f reaches a site (`self.save_pending_group(group)?`): evaluated inline, so that a guard that lives
+    # inside the helper decides, and the site is the storage call itself
+    direct = lambda c: (c.trait or "").startswith("mdk_storage_traits::")
+    helpers = {}
+    for c in f.live_calls():
+        if is_site(c) and not direct(c):
+            for t in prog.call_targets(c):
+                if t.crate == "mdk_core" and not t.is_closure() and not t.is_test_like() and t.path != f.path:
+                    helpers[t.path] = t
+    roots = [f] + list(helpers.values())
+    for g in roots + [prog.fns[p_] for p_ in prog.fns if prog.fns[p_].root in [r.path for r in roots] and prog.fns[p_] not in roots]:
         for c in g.calls():
             by_callee[id(c.callee)] = c
     WRITES = ("save_group", "replace_group_relays", "save_welcome", "save_processed_welcome")
@@ -165,9 +175,18 @@ def guard_by_worlds(prog, f, is_site):
             if name == "is_none" and args and args[0][0] == "variant" and args[0][1] == "Option":
                 return ("int", int(args[0][2] == "None"))
             return None
-        ev = dtable.Evaluator(f, classify, relation, lambda bb, v, t: None, max_steps=6000, call_hook=hook, prog=prog)
+        ev = dtable.Evaluator(f, classify, relation, lambda bb, v, t: None, max_steps=6000, call_hook=hook, prog=prog,
+                              inline=(lambda t, *a: t.path in helpers) if helpers else None)
         ev.proj_hook = proj
-        ev.log_pred = lambda cal: "site" if (by_callee.get(id(cal)) is not None and is_site(by_callee[id(cal)])) else None
+
+        def log_pred(cal):
+            cobj = by_callee.get(id(cal))
+            if cobj is None or not is_site(cobj):
+                return None
+            if not direct(cobj) and any(t.path in helpers for t in prog.call_targets(cobj)):
+                return None      # inlined: the storage call inside it is the site
+            return "site"
+        ev.log_pred = log_pred
         try:
             ev.run_all({}, fork=True, max_paths=4000)
         except dtable.Undecided:
@@ -491,7 +510,8 @@ def _storage_items(prog, pw):
                         for (k, fld), v in local.items():
                             if k == i + 1 and v[:1] != ("param",):
                                 srcs[(k, fld)] = v
-                items.append(_Item(c, ci, h, srcs))
+                if not any(it.outer is c and it.inner is ci for it in items):
+                    items.append(_Item(c, ci, h, srcs))
     return items
 
 
@@ -509,9 +529,21 @@ def _reaches(pw, x, y):
 
 def _on_every_path(prog, pw, e, w, r):
     """the success of call e lies on every path from the write w to the call r"""
+    if not _reaches(pw, e, r):
+        return False
     if e.outer is r.outer:
         return e.inner is not None and r.inner is not None and A.succ_dominated(e.fn, r.inner.bb, [e.inner])
-    if e.inner is not None and not A.Guarantee(prog, lambda x: x is e.inner).fn(e.fn):
+    if e.inner is not None and e.outer is w.outer and w.inner is not None:
+        # both inside one helper, r after it: from the write, the helper cannot return Ok without e having succeeded
+        cut_h = A.success_edges(e.fn, [e.inner])
+        # a tail call whose result *is* the helper's return value succeeds whenever the helper does
+        tail = frozenset([e.inner.bb]) if e.inner.dst and (e.inner.dst[0] == 0 or 0 in A.result_tests(e.fn, {e.inner.dst[0]})[1]) else frozenset()
+        if not cut_h and not tail:
+            return False
+        rr = A.reach_without_edges(e.fn, w.inner.t["to"], cut_h, A.err_exit_blocks(e.fn) | tail)
+        if any(e.fn.term(b)["k"] == "return" for b in rr):
+            return False
+    elif e.inner is not None and not A.Guarantee(prog, lambda x: x is e.inner).fn(e.fn):
         return False
     cut = A.success_edges(pw, [e.outer])
     if not cut:
